@@ -47,7 +47,7 @@ Rep(s, n) == IF n = 0 THEN <<>>
              ELSE s \o Rep(s, n - 1)
 RepSep(s, sep, n) == IF n = 0 THEN <<>> ELSE s \o Rep(sep \o s, n - 1)
 
-FamilyNames == {"parens", "preds", "steps", "dsteps", "unions", "minus", "deeppred", "selfpred", "args", "parenpath", "ors", "filters"}
+FamilyNames == {"parens", "preds", "steps", "dsteps", "unions", "minus", "deeppred", "selfpred", "args", "parenpath", "ors", "filters", "updown", "deepdsteps", "updownaxes"}
 Member(fam, n) ==
   CASE fam = "parens"    -> Rep(Cp("("), n) \o Cp("1") \o Rep(Cp(")"), n)                   \* ((((1))))
     [] fam = "parenpath" -> Rep(Cp("("), n) \o Cp("//") \o Cp("b") \o Rep(Cp(")"), n)       \* ((((//b))))
@@ -61,5 +61,13 @@ Member(fam, n) ==
     [] fam = "selfpred"  -> Cp("/") \o Cp("*") \o Rep(Cp("[") \o Cp("self") \o Cp("::") \o Cp("*"), n) \o Rep(Cp("]"), n)   \* /*[self::*[self::*[...]]]
     [] fam = "args"      -> Rep(Cp("string") \o Cp("("), n) \o Cp("1") \o Rep(Cp(")"), n)   \* string(string(1))
     [] fam = "ors"       -> RepSep(Cp("1"), Cp("sp") \o Cp("or") \o Cp("sp"), n)            \* 1 or 1 or ...
+    \* a step's result is a node-SET: going up and down again must not double the work per repetition (2^n)
+    [] fam = "updown"    -> Cp("/") \o Cp("a") \o Cp("/") \o Cp("b") \o Rep(Cp("/") \o Cp("..") \o Cp("/") \o Cp("b"), n)   \* /a/b/../b/../b...
+    [] fam = "updownaxes" -> Cp("//") \o Cp("b") \o Rep(Cp("/") \o Cp("ancestor-or-self") \o Cp("::") \o Cp("*") \o Cp("/") \o Cp("descendant-or-self") \o Cp("::") \o Cp("*"), n)
+    \* on a DEEP document (DeepDoc: a chain of DeepDocDepth elements) every //* reaches each node along many routes
+    [] fam = "deepdsteps" -> Rep(Cp("//") \o Cp("*"), n)
     [] fam = "filters"   -> Rep(Cp("("), n) \o Cp("//") \o Cp("b") \o Rep(Cp(")") \o Cp("[") \o Cp("1") \o Cp("]"), n)  \* (((//b)[1])[1])
+
+DeepDocDepth == 24
+DeepDoc == Rep(<<60>> \o Cp("c") \o <<62>>, DeepDocDepth) \o Rep(<<60, 47>> \o Cp("c") \o <<62>>, DeepDocDepth)     \* <c><c>...</c></c>
 =============================================================================
